@@ -141,6 +141,8 @@ def coq_op(op, sym=None):
         return f"(OConst (COther {coq_str(args[0])}))"
     if name == "gate":
         return f"(OGate {coq_str(args[0])})"
+    if name == "call":
+        return f"(OCall {coq_str(args[0])} {args[1]})"
     if name == "other":
         return f"(OOther {coq_str(args[0])} {args[1]})"
     raise ValueError(f"unknown op token {op}")
